@@ -68,13 +68,7 @@ WMerge(h, d, left, right) ==
 \* deploy_to(): a script is the textual-order fold of the five mutators with a variable table that belongs to ONE
 \* deployment (SodgCore!DeployOp); each variable takes one next_id() result at its first mention.  The programs are a
 \* named family (every command kind, a variable used twice, two variables, a literal next to a variable):
-LitR(i) == [k |-> "lit", id |-> i]
-VarR(n) == [k |-> "var", name |-> n]
-Progs == {<<[c |-> "ADD", v |-> VarR("x")]>>, <<[c |-> "ADD", v |-> VarR("x")], [c |-> "ADD", v |-> VarR("y")]>>}
-         \cup {<<[c |-> "ADD", v |-> VarR("x")], [c |-> "PUT", v |-> VarR("x"), d |-> d]>> : d \in Vals}
-         \cup {<<[c |-> "ADD", v |-> VarR("x")], [c |-> "BIND", v1 |-> LitR(i), v2 |-> VarR("x"), a |-> a]>> : i \in Ids, a \in Labels}
-         \cup {<<[c |-> "ADD", v |-> VarR("x")], [c |-> "BIND", v1 |-> VarR("x"), v2 |-> LitR(i), a |-> a]>> : i \in Ids, a \in Labels}
-         \cup {<<[c |-> "ADD", v |-> LitR(i)], [c |-> "ADD", v |-> VarR("x")]>> : i \in Ids}
+Progs == ScriptFamily(Ids, Labels, Vals)
 TabIds(tab) == {tab[n] : n \in DOMAIN tab}
 WDeploy(h, prog) ==
               /\ Live(h)
